@@ -18,6 +18,8 @@ import (
 //   (3) no other function of the library can lower the field of an object it did not create itself:
 //       every store to T.f outside c is to an object allocated in that same function (another
 //       constructor's own object), or stores a value proved ≥ 1.
+//   (4) the address of a field of that name is never used for anything but loads and stores (no store through a
+//       plain pointer can reach it).
 // T being unexported, code outside the library can neither build a T nor write the field.
 // This is what the residue entry for the STL frame rate used to assume; it is now derived.
 
@@ -64,6 +66,12 @@ func (a *NilAnalysis) ctorFieldGE1(c *ssa.Function, resIdx int, nt *types.Named,
 		return r == 1
 	}
 	a.fieldLo[k] = 0 // pessimistic while computing (recursion)
+	// the field is only written by the stores examined below: its address is never handed out
+	for _, set := range a.escapedFieldAddrs() {
+		if set["."+field] {
+			return false
+		}
+	}
 	isField := func(addr ssa.Value) (*ssa.FieldAddr, bool) {
 		fa, ok := addr.(*ssa.FieldAddr)
 		if !ok {
